@@ -333,11 +333,14 @@ def filterKeep (r : RecordM) (filter : Option String) : Except Err (List Bool ×
       | .ok keep =>
         if keep.headD true then .ok (keep, r.refMasked) else .ok (true :: keep.tail, true)
 
+/-- `if mask_reference_allele: frequencies[0] = 0` -/
+def maskedVals (maskRef : Bool) (vals : List (Option Rat)) : List (Option Rat) :=
+  if maskRef then vals.set 0 (some 0) else vals
+
 /-- masking, sub-setting and normalisation of the frequency array -/
 def finishPrior (keep : List Bool) (maskRef : Bool) (vals : List (Option Rat))
     (objDtype isInt : Bool) : Except Err LocusPriorM :=
-  let vals := if maskRef then vals.set 0 (some 0) else vals
-  let kept := select vals keep
+  let kept := select (maskedVals maskRef vals) keep
   if kept.any Option.isNone then .error .typeError          -- object array: `float + None`
   else
     let raw := kept.map (fun x => x.getD 0)
